@@ -8,7 +8,7 @@ ID = 'C19'
 LEAN_TARGETS = ['Properties.C19']
 THEOREMS = ['Dist.C19_numbers', 'Dist.C19_typed_range', 'Dist.C19_typed_zero',
             'Dist.C19_time_zero', 'Dist.C19_time_microseconds', 'Dist.C19_N_datetime_vs_date', 'Dist.C19_dispatch_order',
-            'Dist.C19_item_length_le_count', 'Dist.C19_rough_length_is_hash_count', 'Dist.C19_deep_distance_nested_dicts', 'Dist.C19_deep_distance_positional_lists', 'Dist.C19_deep_distance_positive_nested_dicts', 'Dist.C19_N_deep_distance_exceeds_one', 'Dist.C19_deep_distance_positive_positional_lists', 'Dist.C19_deep_distance_sets', 'Dist.C19_deep_distance_frozensets', 'Dist.C19_deep_distance_positive_sets', 'Dist.C19_N_set_of_none',
+            'Dist.C19_item_length_le_count', 'Dist.C19_rough_length_is_hash_count', 'Dist.C19_deep_distance_nested_dicts', 'Dist.C19_deep_distance_positional_lists', 'Dist.C19_deep_distance_positive_nested_dicts', 'Dist.C19_N_deep_distance_exceeds_one', 'Dist.C19_deep_distance_positive_positional_lists', 'Dist.C19_deep_distance_sets', 'Dist.C19_deep_distance_frozensets', 'Dist.C19_deep_distance_positive_sets', 'Dist.C19_deep_distance_positive_frozensets', 'Dist.C19_N_set_of_none',
             'Dist.C19_N_uncounted_leaves']
 RULE = ('(a) pairs of ints / short decimals / Decimals (0, negatives, opposite signs, equal values) x maxima: real _get_numbers_distance vs the exact '
         'rational model; (b) datetimes, dates, timedeltas, times; (c) deep_distance of generated nested pairs x ignore_order x view x cutoff, '
